@@ -500,7 +500,10 @@ class WARCRecorder(object):
         Returns:
             str, None: A string in the form ``type/subtype`` or None.
         '''
-        match = re.match(r'([a-zA-Z0-9-]+/[a-zA-Z0-9-]+)', value)
+        # type and subtype are restricted names (RFC 6838 section 4.2):
+        # "image/svg+xml" and "application/vnd.ms-excel" are single types
+        match = re.match(
+            r'([a-zA-Z0-9!#$&^_.+-]+/[a-zA-Z0-9!#$&^_.+-]+)', value)
 
         if match:
             return match.group(1)
